@@ -14,6 +14,7 @@ import (
 	"fmt"
 	"os"
 	"sort"
+	"strings"
 )
 
 type Ctx struct {
@@ -40,7 +41,25 @@ type caseLine struct {
 
 // Case records one (input, observed) pair. gen names the generator/stream, tags feed the input
 // distribution written to the evidence, nontrivial is the per-property non-triviality rule.
+// onlyGens: VERIF_ONLY="gen:prefix1,prefix2" (set when another property reuses this harness for one
+// of its clauses) keeps only the cases whose generator name starts with one of the prefixes.
+var onlyGens = func() []string {
+	if v := os.Getenv("VERIF_ONLY"); strings.HasPrefix(v, "gen:") {
+		return strings.Split(v[4:], ",")
+	}
+	return nil
+}()
+
 func (c *Ctx) Case(gen string, in, obs Term, nontrivial bool, tags ...string) {
+	if onlyGens != nil {
+		keep := false
+		for _, p := range onlyGens {
+			keep = keep || strings.HasPrefix(gen, p)
+		}
+		if !keep {
+			return
+		}
+	}
 	cl := caseLine{In: Render(in), Obs: Render(obs), Gen: gen, Tags: tags, NT: nontrivial}
 	b, _ := json.Marshal(cl)
 	c.out.Write(b)
@@ -137,8 +156,8 @@ func (r *Rng) Intn(n int) int {
 	}
 	return int(r.U64() % uint64(n))
 }
-func (r *Rng) Bool() bool        { return r.U64()&1 == 1 }
-func (r *Rng) P(num, den int) bool { return r.Intn(den) < num }
-func (r *Rng) I64() int64        { return int64(r.U64()) }
+func (r *Rng) Bool() bool             { return r.U64()&1 == 1 }
+func (r *Rng) P(num, den int) bool    { return r.Intn(den) < num }
+func (r *Rng) I64() int64             { return int64(r.U64()) }
 func PickS(r *Rng, l []string) string { return l[r.Intn(len(l))] }
 func PickI(r *Rng, l []int64) int64   { return l[r.Intn(len(l))] }
